@@ -22,6 +22,11 @@ def variants(src, contexts, imports, layouts):
                     if l in ("cp1252", "latin-1", "shift_jis"):
                         d_ = gen.legacy_encoding(s2, l)
                         if d_ is not None: out.append(((c, imp, "legacy-encoding-" + l), d_))
+                    elif l.startswith("shape-"):
+                        # call shapes of C16 as a layout: extra arguments (**mapping, *sequence, keyword) appended to every call of the seed
+                        from vf.checks import c16 as _c16
+                        s3 = dict(_c16.shapes(s2)).get(l[6:])
+                        if s3 is not None: out.append(((c, imp, l), s3.encode("utf-8")))
                     elif l in gen.CALL_LAYOUTS:
                         s3 = gen.CALL_LAYOUTS[l](s2)
                         if s3 is not None: out.append(((c, imp, l), s3.encode("utf-8")))
@@ -35,9 +40,9 @@ def plan(tier, seed):
     by = collections.defaultdict(list)
     for r in recs: by[r["codemod"]].append(r)
     if tier == "quick":
-        per, ctxs, imps, lays = 5, ("module", "def", "nested", "twice", "twice-defs", "closure"), ("plain", "alias", "second-use", "mixed"), ("lf", "crlf", "bom", "exploded", "trailing-comma", "semicolon", "keywords-reversed", "cp1252", "dataflow")
+        per, ctxs, imps, lays = 5, ("module", "def", "nested", "twice", "twice-defs", "closure"), ("plain", "alias", "from", "second-use", "mixed"), ("lf", "crlf", "bom", "exploded", "trailing-comma", "semicolon", "keywords-reversed", "cp1252", "dataflow", "shape-double-star")
     else:
-        per, ctxs, imps, lays = 10**6, ("module", "def", "async", "method", "nested", "prelude", "twice", "twice-defs", "closure"), ("plain", "alias", "from", "second-use", "mixed"), ("lf", "crlf", "nonl", "bom", "tabs", "unicode", "exploded", "exploded-comments", "trailing-comma", "semicolon", "backslash", "formfeed", "keywords-reversed", "hanging", "cp1252", "latin-1", "shift_jis", "dataflow")
+        per, ctxs, imps, lays = 10**6, ("module", "def", "async", "method", "nested", "prelude", "twice", "twice-defs", "closure"), ("plain", "alias", "from", "second-use", "mixed"), ("lf", "crlf", "nonl", "bom", "tabs", "unicode", "exploded", "exploded-comments", "trailing-comma", "semicolon", "backslash", "formfeed", "keywords-reversed", "hanging", "cp1252", "latin-1", "shift_jis", "dataflow", "shape-double-star", "shape-star-args", "shape-extra-keyword", "shape-keyword-first")
     jobs = []
     for cid, rs in sorted(by.items()):
         rs = sorted(rs, key=lambda r: hashlib.sha1(r["input"].encode()).hexdigest())
@@ -66,8 +71,22 @@ def plan(tier, seed):
             for h, (lab, d) in items:
                 jobs.append({"id": f"{cid}#{h}", "cid": cid, "labels": {"code.py": lab}, "files": {"code.py": b64(d)},
                              "argv": ["{proj}", "--output", "{out}", "--codemod-include", cid], "repeat": 2, "monitors": {"snap": False}})
-    jobs += sast_jobs(tier, seed) + django_jobs() + family_jobs(tier, seed)
+    jobs += sast_jobs(tier, seed) + django_jobs() + family_jobs(tier, seed) + manifest_jobs(tier, seed)
     return jobs
+
+def manifest_jobs(tier, seed):
+    """dependency-adding codemods on projects whose manifest is itself a Python file (setup.py): the dependency writer rewrites source too"""
+    from vf.checks import c03
+    deps = dict(c03.DEP_CODEMODS)
+    deps.update({"pixee:python/url-sandbox": "import requests\nfrom flask import request\ndef v():\n    requests.get(request.args['u'])\n", "pixee:python/sandbox-process-creation": "import subprocess\nfrom flask import request\ndef v():\n    subprocess.run(request.args['c'])\n"})
+    setups = {"setup_py": c03.MANIFESTS["setup_py"], "setup_py_crlf": c03.MANIFESTS["setup_py_crlf"], "setup_py_triggers": {"setup.py": c03.SETUP_PY_WITH_TRIGGERS}, "setup_py+req": dict(c03.MANIFESTS["setup_py"], **{"requirements.txt": b"requests\n"}),
+              "setup_py_one_line": {"setup.py": b'from setuptools import setup\nsetup(name="x", install_requires=["requests"])\n'}, "setup_py_single_quotes": {"setup.py": b"from setuptools import setup\nsetup(\n    name='x',\n    install_requires=[\n        'requests>=2; python_version >= \"3.8\"',\n    ],\n)\n"}}
+    out = []
+    for cid, src in sorted(deps.items()):
+        for mk, mf in sorted(setups.items()):
+            files = {"app.py": b64(src.encode())}; files.update({k: b64(v) for k, v in mf.items()})
+            out.append({"id": f"{cid}#manifest:{mk}", "cid": cid, "labels": {n: ("manifest", mk, "lf") for n in files}, "files": files, "argv": ["{proj}", "--output", "{out}", "--codemod-include", cid], "repeat": 2, "monitors": {"snap": False}})
+    return out
 
 def family_jobs(tier, seed):
     """the generated program families of vf.families (boolean templates, comparison chains, nested sites, import blocks, sql pieces ...) as extra grid inputs"""
